@@ -62,7 +62,7 @@ def main():
         print('patch does not apply:\n' + o)
         return 2
     sh('git -C %s apply %s' % (REPO, patch))
-    env = dict(os.environ, PYTHONHASHSEED='0')
+    env = dict(os.environ, PYTHONHASHSEED='0', VERIF_EVIDENCE_DIR='/dev/shm/audit-evidence')
     try:
         if tests:
             # private network namespace: the MLLP tests bind fixed ports that concurrent test runs on this host may hold
